@@ -20,6 +20,7 @@ type SolveResult struct {
 	Output  string // solver output (model when sat)
 	File    string
 	All     map[string]string // backend -> status
+	Candidate string          // model found with quantified assumptions dropped (candidate counterexample)
 }
 
 type Solver struct {
@@ -212,7 +213,35 @@ func (s *Solver) SolveAll(em *Emitter, obls []*Obligation) {
 				ob.Result = &SolveResult{Status: st, Backend: "z3-new", Seconds: secs, Output: out, File: file, All: map[string]string{"z3-new": st}}
 				return
 			}
-			ob.Result = s.Solve(ob.Name, em.Render(ob, true))
+			text := em.Render(ob, true)
+			ob.Result = s.Solve(ob.Name, text)
+			if ob.Result.Status == "unknown" || ob.Result.Status == "timeout" {
+				// quantified assumptions keep solvers from answering "sat": look for a candidate counterexample with
+				// them dropped (a candidate only — it may violate a dropped assumption; the replay on the real code decides)
+				lines := strings.Split(text, "\n")
+				last := -1
+				for i, l := range lines {
+					if strings.HasPrefix(l, "(assert") {
+						last = i
+					}
+				}
+				var kept []string
+				for i, l := range lines {
+					if i != last && strings.HasPrefix(l, "(assert") && (strings.Contains(l, "(forall ") || strings.Contains(l, "(exists ")) {
+						continue
+					}
+					kept = append(kept, l)
+				}
+				stripped := strings.Join(kept, "\n")
+				sum := sha256.Sum256([]byte(stripped))
+				file := filepath.Join(s.Dir, fmt.Sprintf("%x.cand.smt2", sum[:8]))
+				os.WriteFile(file, []byte(stripped), 0o644)
+				st, out, secs := runBackend(context.Background(), backends[0], file, 5*time.Second, s.Seed)
+				ob.Result.Seconds += secs
+				if st == "sat" {
+					ob.Result.Candidate = out
+				}
+			}
 		}(ob)
 	}
 	wg.Wait()
